@@ -5,6 +5,7 @@ package props
 import (
 	"cmp"
 	"fmt"
+	"math"
 	"math/rand/v2"
 
 	"github.com/creachadair/mds/heapq"
@@ -74,6 +75,16 @@ func heapCmp(dir int) func(a, b Elem) int {
 		}
 	}
 	switch dir {
+	case 7: // the natural order, reported with the extreme values of int
+		return func(a, b Elem) int {
+			switch {
+			case a.Key < b.Key:
+				return math.MinInt
+			case a.Key > b.Key:
+				return math.MaxInt
+			}
+			return 0
+		}
 	case 5: // by insertion tag: unrelated to the key order
 		return func(a, b Elem) int { return cmp.Compare(a.Tag, b.Tag) }
 	case 6: // by a scrambled function of key and tag: unrelated to both
@@ -87,7 +98,7 @@ func heapCmp(dir int) func(a, b Elem) int {
 	case 3:
 		return cmpElemWide
 	case 4:
-		return func(a, b Elem) int { return 2 * (b.Key - a.Key) }
+		return func(a, b Elem) int { return clipInt(2 * (int64(b.Key) - int64(a.Key))) }
 	}
 	return cmpElem
 }
@@ -466,7 +477,7 @@ func heapGenOps(r *rand.Rand, n int, keyRange int, byPos bool) []hop {
 		for i := range ks {
 			ks[i] = key()
 		}
-		ops = append(ops, hop{Op: 'N', Keys: ks, Dir: r.IntN(7), I: r.IntN(4)})
+		ops = append(ops, hop{Op: 'N', Keys: ks, Dir: r.IntN(8), I: r.IntN(4)})
 		size = m
 	}
 	for len(ops) < n {
@@ -521,7 +532,7 @@ func heapGenOps(r *rand.Rand, n int, keyRange int, byPos bool) []hop {
 			ops = append(ops, hop{Op: 'S', Keys: ks})
 			size = m
 		case 10:
-			ops = append(ops, hop{Op: 'O', Dir: r.IntN(7)})
+			ops = append(ops, hop{Op: 'O', Dir: r.IntN(8)})
 		case 11:
 			if r.IntN(4) == 0 {
 				ops = append(ops, hop{Op: 'C'})
@@ -548,7 +559,7 @@ func heapGenLarge(r *rand.Rand, n, keyRange int, byPos bool) []hop {
 	case 0:
 		ops = append(ops, hop{Op: 'S', Keys: ks})
 	case 1:
-		ops = append(ops, hop{Op: 'N', Keys: ks, Dir: r.IntN(7), I: r.IntN(3)})
+		ops = append(ops, hop{Op: 'N', Keys: ks, Dir: r.IntN(8), I: r.IntN(3)})
 	default:
 		for _, k := range ks {
 			ops = append(ops, hop{Op: 'A', Key: k})
@@ -580,7 +591,7 @@ func heapGenLarge(r *rand.Rand, n, keyRange int, byPos bool) []hop {
 			}
 		default:
 			if r.IntN(6) == 0 {
-				ops = append(ops, hop{Op: 'O', Dir: r.IntN(7)})
+				ops = append(ops, hop{Op: 'O', Dir: r.IntN(8)})
 			}
 		}
 	}
